@@ -537,12 +537,30 @@ func registryCloseFromInside(event, transport string, discard bool) (key, msg st
 func TestC04(t *testing.T) {
 	r := rep.New(t, "C04")
 	defer r.Flush()
+	// journalled cases that have not ended after a minute of real time are examined (rep.Guard)
+	r.Guard(60 * time.Second)
 	if r.Lane == 3%r.Lanes {
 		// the engine behind a types.HttpServer listening itself: HTTP/1.1, HTTP/2 (TLS) and HTTP/3 (QUIC) on loopback
-		defer netLanes(r, r.N(4, 64))
+		netLanes(r, r.N(4, 64))
 	}
-	r.Rule("PRNG histories of 4-18 operations on one server: handshakes on three transports, every close cause, upgrades, requests naming closed sessions, sessions killed while their handshake is held at server.Handshake.afterNewSocket, final Server.Close (window operation on all three transports with six causes); a real-time churn lane of 32 goroutines handshaking and closing concurrently; a gate lane holding the table's delete of a closing session in the map's slow path (hook map.slowPath) across a promotion; after EVERY operation the bubble is brought to quiescence and the invariant is evaluated (table == count == live announced sessions, no closed session reachable, no underflow); ids checked for uniqueness and alphabet across the process plus 16-goroutine GenerateId storms, also with crypto/rand replaced by a constant reader; distinct = operation sequences")
+	r.Rule("PRNG histories of 4-18 operations on one server: handshakes on three transports, every close cause, upgrades, requests naming closed sessions, sessions killed while their handshake is held at server.Handshake.afterNewSocket, final Server.Close (window operation on all three transports with six causes); a real-time churn lane of 32 goroutines handshaking and closing concurrently; a real-time lane in which silent sessions of both revisions end by heartbeat expiry, application close and server close and the invariant is evaluated once every session reports closed and the process has come to rest; a gate lane holding the table's delete of a closing session in the map's slow path (hook map.slowPath) across a promotion; after EVERY operation the bubble is brought to quiescence and the invariant is evaluated (table == count == live announced sessions, no closed session reachable, no underflow); ids checked for uniqueness and alphabet across the process plus 16-goroutine GenerateId storms, also with crypto/rand replaced by a constant reader; distinct = operation sequences")
 	r.Assume("with a degenerate random source ids must still be unique: the guarantee rests on the monotone sequence number inside the id, not on luck")
+	if r.Lane == 2%r.Lanes {
+		for k := 0; k < r.N(8, 160); k++ {
+			for _, cause := range []string{"ping-timeout", "close-true", "server-close"} {
+				key, msg, decided := registryRealTimeEndings(r, cause)
+				r.Case("real-time-ending/"+cause, decided)
+				if decided {
+					r.Obs("real_time_endings:"+cause, 1)
+				} else {
+					r.Obs("real_time_endings_undecided", 1)
+				}
+				if key != "" {
+					r.Violation(key, msg, map[string]any{"lane": "sessions ending on real time, invariant at rest", "cause": cause})
+				}
+			}
+		}
+	}
 	n := r.N(2000, 150000)
 	for i := 0; i < n; i++ {
 		if !r.Only(i) {
@@ -602,4 +620,100 @@ func TestC04(t *testing.T) {
 	idStorm(r, "base64id", 16, per/4, func() (string, error) { return utils.Base64Id().GenerateId() })
 	crand.Reader = old
 	r.Obs("degenerate_rng_storms", 1)
+}
+
+// registryRealTimeEndings: sessions that end for causes which take effect on the library's own
+// goroutines - heartbeat expiry of silent clients (revision 3 and 4), graceful and immediate
+// application close, server close - on REAL time.  On virtual time a goroutine that blocks on one
+// of the library's mutexes freezes the clock, so a teardown that gets stuck there cannot be judged
+// in a bubble; here it shows as what it is: a session whose state is closed and which is still
+// registered.  No verdict depends on how long anything took: the lane waits (bounded, undecided
+// on expiry) until every session reports the state closed, lets the process come to rest, and then
+// evaluates the invariant.
+func registryRealTimeEndings(r *rep.Report, cause string) (key, msg string, decided bool) {
+	so := &config.ServerOptions{}
+	so.SetAllowEIO3(true)
+	if cause == "ping-timeout" {
+		so.SetPingInterval(40 * time.Millisecond)
+		so.SetPingTimeout(40 * time.Millisecond)
+	} else {
+		so.SetPingInterval(time.Hour)
+		so.SetPingTimeout(time.Hour)
+	}
+	eng := engine.NewServer(so)
+	var mu sync.Mutex
+	closes := map[string]int{}
+	eng.On("connection", func(a ...any) {
+		s := a[0].(engine.Socket)
+		s.On("close", func(...any) { mu.Lock(); closes[s.Id()]++; mu.Unlock() })
+	})
+	var socks []engine.Socket
+	for i := 0; i < 6; i++ {
+		rec := httptest.NewRecorder()
+		eng.ServeHTTP(rec, httptest.NewRequest("GET", fmt.Sprintf("http://h/engine.io/?EIO=%d&transport=polling", 4-i%2), nil))
+		body := rec.Body.String()
+		k := strings.Index(body, `"sid":"`)
+		if k < 0 {
+			eng.Close()
+			return "", "handshake failed: " + body, false
+		}
+		sid := body[k+7:]
+		sid = sid[:strings.Index(sid, `"`)]
+		if s, ok := eng.Clients().Load(sid); ok {
+			socks = append(socks, s)
+		}
+	}
+	if len(socks) != 6 {
+		eng.Close()
+		return "c04-live-session-unreachable", fmt.Sprintf("%d of 6 sessions just created are reachable under their ids", len(socks)), true
+	}
+	switch cause {
+	case "close-true":
+		for _, s := range socks {
+			go s.Close(true)
+		}
+	case "server-close":
+		go eng.Close()
+	}
+	// wait for the state, not for the clock
+	allClosed := false
+	for try := 0; try < 8000 && !allClosed; try++ {
+		allClosed = true
+		for _, s := range socks {
+			if s.ReadyState() != "closed" {
+				allClosed = false
+			}
+		}
+		if !allClosed {
+			time.Sleep(5 * time.Millisecond)
+		}
+	}
+	if !allClosed {
+		eng.Close()
+		return "", "not every session reported the state closed within 40 s", false
+	}
+	rig.Settle()
+	rig.Settle()
+	defer eng.Close()
+	for _, s := range socks {
+		if _, ok := eng.Clients().Load(s.Id()); ok {
+			return "c04-closed-session-registered", fmt.Sprintf("real time, cause %s: session %s reports the state closed, the process has come to rest, and the session is still in the client table (table %d, count %d)", cause, s.Id(), eng.Clients().Len(), eng.ClientsCount()), true
+		}
+		rec := httptest.NewRecorder()
+		eng.ServeHTTP(rec, httptest.NewRequest("POST", "http://h/engine.io/?EIO=4&transport=polling&sid="+s.Id(), strings.NewReader("4x")))
+		if rec.Code != 400 || !strings.Contains(rec.Body.String(), `"code":1`) {
+			return "c04-closed-session-still-addressable", fmt.Sprintf("real time, cause %s: a data request naming the closed session was answered %d %.60q", cause, rec.Code, rec.Body.String()), true
+		}
+	}
+	if eng.Clients().Len() != 0 || eng.ClientsCount() != 0 {
+		return "c04-count-drift", fmt.Sprintf("real time, cause %s: every session is closed; table %d entries, count %d", cause, eng.Clients().Len(), eng.ClientsCount()), true
+	}
+	mu.Lock()
+	defer mu.Unlock()
+	for _, s := range socks {
+		if closes[s.Id()] != 1 {
+			return "c04-close-events", fmt.Sprintf("real time, cause %s: session %s emitted %d close events", cause, s.Id(), closes[s.Id()]), true
+		}
+	}
+	return "", "", true
 }
